@@ -565,7 +565,61 @@ def h7_colour(K=3, timeout=200, part=None, **kw):
                          shims={"namespace_shims": shims}, part=part)
 
 
+# -------------------------------------------------------------------------------------------- H8 the next page starts from the initial state
+DIRTY = [b"", b"q q 2 0 0 2 5 5 cm ", b"BT /F1 7 Tf 3 Tc 4 Tw 50 Tz 9 TL 2 Ts 1 Tr 10 10 Td (A) Tj ", b"0.2 0.3 0.4 rg 0.1 G ", b"1 2 3 ", b"10 10 m 20 20 l ", b"/DeviceRGB cs 3 w [1 2] 0 d ",
+         b"BT /F1 5 Tf 2 0 0 2 30 40 Tm (B) Tj ET q ", b"(s) [1] /N ", b"1 0 0 1 7 7 cm BT 5 5 Td ", b"1 0 0 1 7 7 cm 0.5 g q 3 Tc q ", b"30 40 50 60 70 80 /F1 "]
+NEXT_PAGES = [PROGRAM, b"BT /F1 9 Tf (AB) Tj T* (B) ' ET", b"(x) 1 BT /F1 9 Tf [(A) 100 (B)] TJ ET",
+              # an unmatched Q and operators without operands: on a fresh interpreter they do nothing
+              b"Q BT /F1 9 Tf (AB) Tj ET Q", b"BT /F1 9 Tf Td Tc Tz (A) Tj cm TL T* (B) Tj ET", b"rg BT Tf /F1 9 Tf (A) Tj ET"]
+
+
+def _pages_run(first, second):
+    """glyphs of a page whose content is `second`, interpreted by an interpreter that has just rendered a page with the content `first` (None: a fresh interpreter)"""
+    import pdfminer.pdftypes as pt
+    from pdfminer.layout import LTPage
+    it, dev = setup(I6, {65: 500, 66: 600, 32: 250})
+    res = {"Font": {"F1": {}}}
+    if first is not None:
+        it.render_contents(res, [pt.PDFStream({}, first)], ctm=I6)
+        dev.cur_item = LTPage(2, (0, 0, 1000, 1000))
+    it.render_contents(res, [pt.PDFStream({}, second)], ctm=I6)
+    return [(c.get_text(), tuple(c.matrix), c.adv, tuple(c.bbox), c.graphicstate.ncolor, c.graphicstate.scolor) for c in glyphs_of(dev.cur_item)]
+
+
+def _pages_check(sel):
+    first = DIRTY[sel["d1"]] + DIRTY[sel["d2"]]
+    second = NEXT_PAGES[sel["next"]]
+    try:
+        got, alone = _pages_run(first, second), _pages_run(None, second)
+    except Exception as e:
+        return "page %r after a page %r: raised %s: %s" % (second, first, type(e).__name__, e)
+    if got != alone:
+        k = [i for i in range(max(len(got), len(alone))) if i >= len(got) or i >= len(alone) or got[i] != alone[i]][0]
+        return "page %r rendered after a page with the content %r: glyph %d is %r, on a fresh interpreter %r (%d vs %d glyphs)" % (
+            second, first, k, got[k] if k < len(got) else None, alone[k] if k < len(alone) else None, len(got), len(alone))
+    return None
+
+
+def h8_pages(timeout=200, part=None, **kw):
+    """every pair of state-dirtying fragments (unbalanced q, open text object with every text-state operator set, colours, operands left on the stack, a path under construction, a changed
+    CTM) as the content of one page, followed by a second page on the SAME interpreter (as process_page does): the second page's glyphs are those of a fresh interpreter"""
+    import pdfminer.pdfinterp as pi
+
+    def fn(ex):
+        sel = {"d1": ex.choice(len(DIRTY), "d1"), "d2": ex.choice(len(DIRTY), "d2"), "next": ex.choice(len(NEXT_PAGES), "next")}
+        r = _pages_check(sel)
+        ex.require(r is None, r or "", sel=sel)
+
+    def conc(m, info):
+        return info
+    P = pi.PDFPageInterpreter
+    return core.run_symx("H8_pages", fn, [P.render_contents, P.init_state, P.init_resources, pi.PDFTextState.reset, P.execute],
+                         {"first page": "two fragments from %d state-dirtying ones" % len(DIRTY), "second page": "%d programs relying on the initial state" % len(NEXT_PAGES)}, timeout, concretize=conc, part=part)
+
+
 def replay(harness, inp):
+    if harness == "H8_pages":
+        return _pages_check(inp["sel"])
     if harness in ("H5_split",):
         whole = _run_content([PROGRAM])
         parts, k = [], 0
@@ -724,7 +778,7 @@ def _replay_form(inp, v, g, W, diff):
 def jobs(tier):
     J = [Job("H7_colour:%d" % k, "h7_colour", {"K": 3, "part": [k, 4, 6]}, 300, "H7_colour") for k in range(4)]
     J += [Job("H6_missing2:%d" % k, "h6_missing2", {"part": [k, 2, 5]}, 300, "H6_illtyped") for k in range(2)]
-    J += [Job("H2_spacing", "h2_spacing", {}, 150), Job("H4_form", "h4_form", {}, 200), Job("H5_split", "h5_split", {}, 100), Job("H6_illtyped", "h6_illtyped", {}, 200)]
+    J += [Job("H2_spacing", "h2_spacing", {}, 150), Job("H4_form", "h4_form", {}, 200), Job("H5_split", "h5_split", {}, 100), Job("H8_pages", "h8_pages", {}, 200), Job("H6_illtyped", "h6_illtyped", {}, 200)]
     if tier == "quick":
         for f in range(len(OPS)):
             J.append(Job("H1_programs:K2:%s" % OPS[f], "h1_programs", {"K": 2, "first": f}, 200, "H1_programs"))
